@@ -31,145 +31,42 @@ using sx::fail;
 namespace gg = galois::graphs;
 
 // ---------------------------------------------------------------------------
-// Runtime.  Created lazily in the worker (threads do not survive fork).
-//
-// * The thread pool sizes itself from the CPUs the process may run on; only
-//   T <= 4 is needed, and a 16-thread pool per worker would make every
-//   FileGraph::fromFileInterleaved wake 16 threads, so the pool is created
-//   while the affinity mask is narrowed to 4 CPUs.
-// * Galois' master thread SPINS while its helpers run.  With 16 workers x 4
-//   threads on 16 CPUs a helper is regularly queued behind a spinning master
-//   and a parallel region costs milliseconds.  The harness therefore hands out
-//   CPUs explicitly: a table in shared memory (created in main, inherited by
-//   the workers) says which process owns which CPU; a run with T threads takes
-//   T CPUs (all or nothing, entries of dead processes are reclaimed) and pins
-//   Galois thread i to its i-th CPU.  Pure scheduling hygiene: it changes
-//   nothing the property talks about.
+// Runtime.  Created lazily in the worker (threads do not survive fork).  The
+// thread pool sizes itself from the CPUs the process may run on; only T <= 4
+// is needed, and with a 16-thread pool per worker every
+// FileGraph::fromFileInterleaved would wake 16 threads, so the pool is created
+// while the affinity mask is narrowed to 4 CPUs; the mask of every pool thread
+// is widened again afterwards (threads are not bound:
+// GALOIS_DO_NOT_BIND_THREADS).
 // ---------------------------------------------------------------------------
-struct CpuTable {
-  int ncpu;
-  int cpu[64];
-  std::atomic<int> owner[64];
-};
-inline CpuTable*& cpu_table() {
-  static CpuTable* t = nullptr;
-  return t;
-}
-inline void cpu_table_init() { // in main(), before any fork
-  CpuTable* t = (CpuTable*)mmap(nullptr, sizeof(CpuTable),
-                                PROT_READ | PROT_WRITE,
-                                MAP_SHARED | MAP_ANONYMOUS, -1, 0);
-  if (t == MAP_FAILED)
-    return;
-  cpu_set_t all;
-  CPU_ZERO(&all);
-  sched_getaffinity(0, sizeof all, &all);
-  t->ncpu = 0;
-  for (int c = 0; c < CPU_SETSIZE && t->ncpu < 64; ++c)
-    if (CPU_ISSET(c, &all)) {
-      t->cpu[t->ncpu] = c;
-      t->owner[t->ncpu].store(0);
-      t->ncpu++;
-    }
-  cpu_table() = t;
-}
-
-struct Runtime {
-  galois::SharedMemSys* G = nullptr;
-  unsigned maxT           = 0;
-  std::vector<pid_t> ostid; // by Galois thread id
-  cpu_set_t all;
-  std::vector<int> bound; // CPU each pool thread is currently pinned to
-};
-inline Runtime& runtime() {
-  static Runtime r;
-  return r;
-}
-
 inline void rt() {
-  Runtime& R = runtime();
-  if (R.G)
+  static galois::SharedMemSys* G = nullptr;
+  if (G)
     return;
-  cpu_set_t few;
-  CPU_ZERO(&R.all);
+  cpu_set_t all, few;
+  CPU_ZERO(&all);
   CPU_ZERO(&few);
-  sched_getaffinity(0, sizeof R.all, &R.all);
+  sched_getaffinity(0, sizeof all, &all);
   int k = 0;
   for (int c = 0; c < CPU_SETSIZE && k < 4; ++c)
-    if (CPU_ISSET(c, &R.all)) {
+    if (CPU_ISSET(c, &all)) {
       CPU_SET(c, &few);
       ++k;
     }
   sched_setaffinity(0, sizeof few, &few);
-  R.G    = new galois::SharedMemSys();
+  G        = new galois::SharedMemSys();
   auto& tp = galois::substrate::getThreadPool();
-  R.maxT = tp.getMaxThreads();
-  R.ostid.assign(R.maxT, 0);
-  R.bound.assign(R.maxT, -1);
-  tp.run(R.maxT, [&R]() {
-    R.ostid[galois::substrate::ThreadPool::getTID()] =
-        (pid_t)syscall(SYS_gettid);
+  std::vector<pid_t> ostid(tp.getMaxThreads(), 0);
+  tp.run(tp.getMaxThreads(), [&ostid]() {
+    ostid[galois::substrate::ThreadPool::getTID()] = (pid_t)syscall(SYS_gettid);
   });
-  for (pid_t t : R.ostid)
-    sched_setaffinity(t, sizeof R.all, &R.all);
+  for (pid_t t : ostid)
+    sched_setaffinity(t, sizeof all, &all);
 }
 
-// Holds T CPUs for the duration of one run.
-class CpuLease {
-  std::vector<int> held;
-
-public:
-  explicit CpuLease(int T) {
-    Runtime& R  = runtime();
-    CpuTable* t = cpu_table();
-    if (!t || getenv("C11_NO_CPU_LEASE"))
-      return;
-    T = std::max(1, std::min(T, std::min((int)R.maxT, t->ncpu)));
-    int me    = (int)getpid();
-    int start = (me * 4) % t->ncpu;
-    for (unsigned attempt = 0;; ++attempt) {
-      for (int i = 0; i < t->ncpu && (int)held.size() < T; ++i) {
-        int s   = (start + i) % t->ncpu;
-        int cur = t->owner[s].load();
-        if (cur != 0 && cur != me && kill(cur, 0) == -1 && errno == ESRCH)
-          t->owner[s].compare_exchange_strong(cur, 0), cur = 0;
-        if (cur == 0 && t->owner[s].compare_exchange_strong(cur, me))
-          held.push_back(s);
-      }
-      if ((int)held.size() == T)
-        break;
-      release();
-      usleep(100 + (me * 37 + attempt * 101) % 400);
-    }
-    for (int i = 0; i < (int)R.maxT; ++i) {
-      if (i < T) {
-        int c = t->cpu[held[i]];
-        if (R.bound[i] != c) {
-          cpu_set_t one;
-          CPU_ZERO(&one);
-          CPU_SET(c, &one);
-          sched_setaffinity(R.ostid[i], sizeof one, &one);
-          R.bound[i] = c;
-        }
-      } else if (R.bound[i] != -1) { // idle helpers float
-        sched_setaffinity(R.ostid[i], sizeof R.all, &R.all);
-        R.bound[i] = -1;
-      }
-    }
-  }
-  void release() {
-    CpuTable* t = cpu_table();
-    for (int s : held)
-      t->owner[s].store(0);
-    held.clear();
-  }
-  ~CpuLease() { release(); }
-};
-
 inline void env_setup() {
-  setenv("GALOIS_DO_NOT_BIND_THREADS", "1", 1); // the lease pins them instead
+  setenv("GALOIS_DO_NOT_BIND_THREADS", "1", 1);
   setenv("GALOIS_DEBUG_SKIP", "1", 1); // gDebug() chatter off (asserts stay on)
-  cpu_table_init();
 }
 
 // ---------------------------------------------------------------------------
